@@ -92,10 +92,10 @@ Definition c01_alloc_check (c : c09_case) : issues :=
 
 (* whole-history replay: the same generated history executed twice on two fresh application instances *)
 Inductive c01_replay_case :=
-| ReplayCase (history_seed : Z) (same_observations same_stores same_events same_halt : bool) (store_entries events : Z).
+| HistReplayCase (history_seed : Z) (same_observations same_stores same_events same_halt : bool) (store_entries events : Z).
 
 Definition c01_replay_check (c : c01_replay_case) : issues :=
-  let 'ReplayCase _ obs st ev h _ _ := c in
+  let 'HistReplayCase _ obs st ev h _ _ := c in
   spec_if obs "two executions of the same history differ in the projected state (balances, ledgers, pools) after some operation"
   ++ spec_if st "two executions of the same history end in different module stores"
   ++ spec_if ev "two executions of the same history emitted different events"
